@@ -1,7 +1,11 @@
 package props
 
 import (
+	"encoding/json"
+	"fmt"
 	"strings"
+
+	"github.com/cosmos/cosmos-sdk/codec"
 
 	sdk "github.com/cosmos/cosmos-sdk/types"
 	aoltypes "github.com/medibloc/panacea-core/v2/x/aol/types"
@@ -118,4 +122,57 @@ func (g *G) genAolTx() *world.TxStep {
 
 func sortedKeys[V any](m map[string]V) []string {
 	return world.SortedKeys(m)
+}
+
+// genAolGenesis draws an aol genesis section whose owners have addresses of legal lengths
+// 1..255 that are byte-prefixes of one another (reachable only through genesis: nobody can
+// sign for them), with prefix-related topic names, writers and records.
+func (g *G) genAolGenesis(cdc codec.JSONCodec) json.RawMessage {
+	gs := aoltypes.DefaultGenesis()
+	base := make([]byte, 255)
+	for i := range base {
+		base[i] = byte(i%7 + 1)
+	}
+	lens := []int{1, 2, 19, 20, 21, 32, 254, 255}
+	nOwners := 2 + g.intn("gen-owners", 4)
+	nano := int64(1700000000000000000)
+	for i := 0; i < nOwners; i++ {
+		o := sdk.AccAddress(base[:pick(g, "owner-len", lens)])
+		if g.chance("real-owner", 25) {
+			o = g.W0Accts[g.intn("real-owner-idx", len(g.W0Accts))].Addr
+		}
+		if _, dup := gs.Owners[o.String()]; dup {
+			continue
+		}
+		nT := 1 + g.intn("gen-topics", 4)
+		names := map[string]bool{}
+		for len(names) < nT {
+			names[pick(g, "gen-topic", topicPool())] = true
+		}
+		gs.Owners[o.String()] = &aoltypes.Owner{TotalTopics: uint64(len(names))}
+		for _, name := range sortedKeys(names) {
+			nW := g.intn("gen-writers", 4)
+			ws := map[string]bool{}
+			for j := 0; j < nW; j++ {
+				wa := sdk.AccAddress(base[:pick(g, "writer-len", lens)])
+				if g.chance("real-writer", 50) {
+					wa = g.W0Accts[g.intn("real-writer-idx", len(g.W0Accts))].Addr
+				}
+				ws[wa.String()] = true
+			}
+			nR := g.intn("gen-records", 4)
+			gs.Topics[o.String()+"/"+name] = &aoltypes.Topic{Description: "genesis", TotalWriters: uint64(len(ws)), TotalRecords: uint64(nR)}
+			for _, wa := range sortedKeys(ws) {
+				gs.Writers[o.String()+"/"+name+"/"+wa] = &aoltypes.Writer{Moniker: "m", Description: "", NanoTimestamp: nano}
+			}
+			for r := 0; r < nR; r++ {
+				gs.Records[fmt.Sprintf("%s/%s/%d", o.String(), name, r)] = &aoltypes.Record{Key: []byte{byte(r)}, Value: []byte("v"), NanoTimestamp: nano + int64(r), WriterAddress: o.String()}
+			}
+		}
+	}
+	bz, err := cdc.MarshalJSON(gs)
+	if err != nil {
+		panic(err)
+	}
+	return bz
 }
